@@ -625,7 +625,7 @@ def build_ts(desc):
 
 # ---- Coq term printing (Q_scope) -------------------------------------------------
 
-PRELUDE = ("From Coq Require Import QArith.\nFrom TskVerif Require Import Base.Common C08.Model C08.Incremental C08.Afs C08.Shapes C08.PairSpan C08.Rf C08.RelVec.\n"
+PRELUDE = ("From Coq Require Import QArith.\nFrom TskVerif Require Import Base.Common C08.Model C08.Incremental C08.Afs C08.Shapes C08.PairSpan C08.Rf C08.RelVec C08.Kc.\n"
            "Open Scope Q_scope.")
 
 
@@ -2232,6 +2232,101 @@ def random_leaf_trees(rng, n, L):
             "individuals": [], "populations": [], "migrations": []}
 
 
+def internal_sample_trees(rng, n, k, L, wide=False):
+    """single-rooted trees without unary nodes over the samples 0..n-1 (leaves, time 0) and
+    n..n+k-1 (INTERNAL samples, time 10*(j+1), each with >= 2 children in every tree, hence
+    with sample descendants); the internal samples sit at different depths, under parents and
+    roots of different ages, from tree to tree.  Other internal nodes are fresh per tree."""
+    nodes = [[1, 0, NULL, NULL, ""] for _ in range(n)] + [[1, 10 * (j + 1), NULL, NULL, ""] for j in range(k)]
+    nb = rng.randrange(0, min(L, 3))
+    bps = [0] + sorted(rng.sample(range(1, L), nb)) + [L] if L > 1 else [0, L]
+    edges = []
+    for a, b in zip(bps[:-1], bps[1:]):
+        roots = list(range(n))
+
+        def fresh(ch):
+            t = max(nodes[c][1] for c in ch) + rng.choice([1, 1, 2, 3])
+            nodes.append([0, t, NULL, NULL, ""])
+            return len(nodes) - 1
+        for j in range(k):
+            s_ = n + j
+            remaining = k - 1 - j                               # every later sample needs >= 2 roots
+            if len(roots) > 3 + remaining and rng.random() < 0.5:        # a fresh merge below the next sample
+                ch = rng.sample([r for r in roots], 2)
+                if max(nodes[c][1] for c in ch) + 3 < nodes[s_][1]:
+                    p_ = fresh(ch)
+                    edges += [[a, b, p_, c, ""] for c in ch]
+                    roots = [r for r in roots if r not in ch] + [p_]
+            ch = rng.sample(roots, max(2, min(len(roots) - remaining, rng.choice([3, 3, 4] if wide else [2, 2, 3]))))
+            edges += [[a, b, s_, c, ""] for c in ch]
+            roots = [r for r in roots if r not in ch] + [s_]
+        while len(roots) > 1:
+            ch = rng.sample(roots, min(len(roots), rng.choice([2, 2, 3])))
+            p_ = fresh(ch)
+            edges += [[a, b, p_, c, ""] for c in ch]
+            roots = [r for r in roots if r not in ch] + [p_]
+    return {"L": L, "scale": 1, "nodes": nodes, "edges": edges, "sites": [], "mutations": [],
+            "individuals": [], "populations": [], "migrations": []}
+
+
+def evolving_trees(rng, n, k, L):
+    """Like internal_sample_trees, but consecutive trees differ by ONE subtree move (a node,
+    preferably an internal sample, gets another older parent) and unchanged edges persist
+    across the breakpoints (squashed), so that the incremental algorithms see subtrees that
+    are re-attached at another depth / under a root of another age while the edges inside
+    them stay.  No unary nodes, single root, same samples in every tree."""
+    base = internal_sample_trees(rng, n, k, 1, wide=True)
+    nodes = base["nodes"]
+    N = len(nodes)
+    par = [NULL] * N
+    for _l, _r, p_, c, _m in base["edges"]:
+        par[c] = p_
+    nb = rng.randrange(0, min(L, 4))
+    bps = [0] + sorted(rng.sample(range(1, L), nb)) + [L] if L > 1 else [0, L]
+    forests = [list(par)]
+    for _ in range(len(bps) - 2):
+        par = list(par)
+        for _try in range(40):
+            cands = [u for u in range(N) if par[u] != NULL]
+            pref = [u for u in cands if n <= u < n + k]
+            u = rng.choice(pref) if pref and rng.random() < 0.6 else rng.choice(cands)
+            po = par[u]
+            if sum(1 for c in range(N) if par[c] == po) < 3:
+                continue
+            sub = {u}
+            grew = True
+            while grew:
+                grew = False
+                for c in range(N):
+                    if par[c] in sub and c not in sub:
+                        sub.add(c)
+                        grew = True
+            ws = [w for w in range(N) if w not in sub and w != po and nodes[w][1] > nodes[u][1]
+                  and any(par[c] == w for c in range(N))]
+            if not ws:
+                continue
+            par[u] = rng.choice(ws)
+            break
+        forests.append(list(par))
+    edges = []
+    for c in range(N):
+        j = 0
+        while j < len(forests):
+            p_ = forests[j][c]
+            if p_ == NULL:
+                j += 1
+                continue
+            i2 = j
+            while i2 + 1 < len(forests) and forests[i2 + 1][c] == p_:
+                i2 += 1
+            edges.append([bps[j], bps[i2 + 1], p_, c, ""])
+            j = i2 + 1
+    rng.shuffle(edges)
+    d = dict(base)
+    d["L"], d["edges"] = L, edges
+    return d
+
+
 def kc_vectors(F_, x, lam):
     """Kendall-Colijn vector of the tree at x: per sample pair (1-lam)*#edges(root..mrca) +
     lam*(t[root]-t[mrca]); per sample (1-lam)*1 + lam*pendant branch length"""
@@ -2244,9 +2339,15 @@ def kc_vectors(F_, x, lam):
             m = [w for w in ca if w in cb][0]
             root = ca[-1]
             depth = len(F_.chain(x, m)) - 1
+            if m in (a, b):
+                # one sample is an ancestor of the other: the KC paper only has leaf labels;
+                # tskit gives such a pair no entry in either tree (recorded decision)
+                v.append(Fr(0))
+                continue
             v.append((1 - lam) * depth + lam * (F_.time[root] - F_.time[m]))
     for a in smp:
-        v.append((1 - lam) * 1 + lam * (F_.time[par[a]] - F_.time[a]))
+        bl = (F_.time[par[a]] - F_.time[a]) if par[a] != NULL else 0     # a sample root has no branch
+        v.append((1 - lam) * 1 + lam * bl)
     return v
 
 
@@ -2380,7 +2481,19 @@ class LdAndDistance(Family):
                        "max_sites": rng.choice([None, 1, 2]), "max_distance": rng.choice([None, [1, 1], [3, 2], [5, 2]])}
             elif what == "kc":
                 nl, L = rng.randrange(2, 6), rng.randrange(1, 6)
-                da, db = permute_pair(rng, random_leaf_trees(rng, nl, L), random_leaf_trees(rng, nl, L))
+                if rng.random() < 0.5:
+                    # internal samples with sample descendants that move between trees; both
+                    # sequences have their own breakpoints; lambda never only 0
+                    nl, ki = rng.randrange(4, 9), rng.randrange(1, 4)
+                    nl = max(nl, 2 * ki + 3)
+                    gen1 = evolving_trees if rng.random() < 0.6 else internal_sample_trees
+                    gen2 = evolving_trees if rng.random() < 0.6 else internal_sample_trees
+                    if rng.random() < 0.25:
+                        ki = 0                       # leaf samples only, persistent edges
+                    L = max(L, rng.randrange(2, 7))
+                    da, db = permute_pair(rng, gen1(rng, nl, ki, L), gen2(rng, nl, ki, L))
+                else:
+                    da, db = permute_pair(rng, random_leaf_trees(rng, nl, L), random_leaf_trees(rng, nl, L))
                 yield {"what": "kc", "desc": da, "desc2": db,
                        "lam": rng.choice([[0, 1], [1, 1], [1, 2], [1, 4]])}
             else:
@@ -2428,7 +2541,9 @@ class LdAndDistance(Family):
             if case["what"] == "kc":
                 lam = float(fr(case["lam"]))
                 return {"ts": encf(ts.kc_distance(ts2, lam)),
-                        "tree": encf(ts.first(sample_lists=True).kc_distance(ts2.first(sample_lists=True), lam))}
+                        "ts_rev": encf(ts2.kc_distance(ts, lam)),
+                        "trees": [encf(ts.at(x, sample_lists=True).kc_distance(ts2.at(x, sample_lists=True), lam))
+                                  for x in range(case["desc"]["L"])]}
             return {"rf": int(ts.first().rf_distance(ts2.first()))}
         except Exception as e:
             return {"err": type(e).__name__, "msg": str(e)[:200]}
@@ -2479,10 +2594,19 @@ class LdAndDistance(Family):
                 return math.sqrt(float(sum((p_ - q) ** 2 for p_, q in zip(v1, v2))))
             L = case["desc"]["L"]
             exp_ts = sum(dist(x) for x in range(L)) / L
-            if abs(obs["tree"] - dist(0)) > TOL * max(1.0, dist(0)):
-                fails.append(("definition/kc/tree", "got %r expected %r" % (obs["tree"], dist(0))))
-            if abs(obs["ts"] - exp_ts) > TOL * max(1.0, exp_ts):
-                fails.append(("definition/kc/tree-sequence", "got %r expected %r" % (obs["ts"], exp_ts)))
+            for x in range(L):
+                if abs(obs["trees"][x] - dist(x)) > TOL * max(1.0, dist(x)):
+                    fails.append(("definition/kc/tree", "tree pair at %d: got %r expected %r" % (x, obs["trees"][x], dist(x))))
+                    break
+            for nm in ("ts", "ts_rev"):
+                if abs(obs[nm] - exp_ts) > TOL * max(1.0, exp_ts):
+                    key = "definition/kc/tree-sequence"
+                    # finding C08-F6: exactly the code's handling of the per-sample entries?
+                    port = self.kc_ts_port(case, F_, F2, lam)
+                    if self.has_sample_root(F_, F2, L) and abs(obs[nm] - port) <= TOL * max(1.0, port):
+                        key = "kc/tree-sequence/stale-entries-of-internal-samples"
+                    fails.append((key, "%s: got %r, span-weighted mean of the per-tree distances %r" % (nm, obs[nm], exp_ts)))
+                    break
             return fails
         c1, r1 = clades(F_, 0)
         c2, r2 = clades(F2, 0)
@@ -2499,9 +2623,77 @@ class LdAndDistance(Family):
             fails.append((key, "rf_distance = %d, symmetric difference of the sample bipartitions = %d" % (obs["rf"], len(c1 ^ c2))))
         return fails
 
+    @staticmethod
+    def has_sample_root(F1, F2, L):
+        """does some tree have a sample that is a root or an ancestor of another sample?"""
+        for F in (F1, F2):
+            for x in range(L):
+                par = F.parent(x)
+                for s_ in F.samples:
+                    if par[s_] == NULL or any(w in F.samples for w in F.chain(x, s_)[1:]):
+                        return True
+        return False
+
+    @staticmethod
+    def kc_ts_port(case, F1, F2, lam):
+        """NOT the definition: the entries that Tree.kc_distance leaves at 0 - the pair of a
+        sample with its own sample descendant, and the per-sample entry of a sample that has
+        no parent - are never written (nor reset) by the incremental update behind
+        TreeSequence.kc_distance (update_kc_incremental / update_kc_pair_with_sample,
+        c/tskit/trees.c 7686-7790): they keep the value of an earlier tree, or 0.  Used only
+        to recognise finding C08-F6."""
+        L = case["desc"]["L"]
+        total = 0.0
+        pend = [dict(), dict()]
+        pairs = [dict(), dict()]
+        for x in range(L):
+            vecs = []
+            for i, F in enumerate((F1, F2)):
+                par = F.parent(x)
+                edges_here = {(e[2], e[3]) for e in F.desc["edges"] if e[0] == x}
+                smp = F.samples
+                cur = kc_vectors(F, x, lam)
+                kk = 0
+                v = []
+                for ia, a in enumerate(smp):
+                    for b in smp[ia + 1:]:
+                        ca, cb = F.chain(x, a), F.chain(x, b)
+                        if not (a in cb or b in ca):
+                            pairs[i][(a, b)] = cur[kk]
+                        v.append(pairs[i].get((a, b), Fr(0)))
+                        kk += 1
+                for s_ in smp:
+                    if par[s_] != NULL and (par[s_], s_) in edges_here:
+                        pend[i][s_] = (1 - lam) * 1 + lam * (F.time[par[s_]] - F.time[s_])
+                    v.append(pend[i].get(s_, Fr(0)))
+                vecs.append(v)
+            total += math.sqrt(float(sum((p_ - q) ** 2 for p_, q in zip(*vecs))))
+        return total / L
+
     prelude = PRELUDE
 
     def coq_check(self, case, obs):
+        if case["what"] == "kc" and "ts" in obs:
+            # per tree pair: the exact squared KC distance of the model against the square of
+            # the implementation's value; tree-sequence level: span-weighted mean of the
+            # implementation's per-tree values (both within 1e-9)
+            d1, d2 = case["desc"], case["desc2"]
+            lam = cq(fr(case["lam"]))
+            smp = czl(samples_of(d1))
+            tol = "(1 # 1000000000)"
+            terms = []
+            for x in range(d1["L"]):
+                terms.append("qclose %s (kc2 %s %s %s %s %s %s) %s" % (
+                    tol, lam, czl(gen_ts.parent_at(d1, x)), czl(gen_ts.parent_at(d2, x)),
+                    coq_times(d1), coq_times(d2), smp, cq(Fr(obs["trees"][x]) ** 2)))
+            F1, F2 = Forests(d1), Forests(d2)
+            if not self.has_sample_root(F1, F2, d1["L"]):
+                segs = "[" + "; ".join("mkks %s %s %s" % (cq(x), cq(x + 1), cq(Fr(obs["trees"][x]))) for x in range(d1["L"])) + "]"
+                terms.append("qclose %s (kc_ts %s %s) %s" % (tol, segs, cq(d1["L"]), cq(Fr(obs["ts"]))))
+            return " && ".join(terms)
+        return self.coq_check_rf(case, obs)
+
+    def coq_check_rf(self, case, obs):
         """rf_distance against the model of the code (which counts the empty sample set of a
         sample-less subtree, finding C08-F4)"""
         if case["what"] != "rf" or "rf" not in obs:
